@@ -2,6 +2,7 @@
 import DSProofs.Lemmas.LifeSpec
 import DSProofs.Lemmas.LifeThetaG
 import DSProofs.Lemmas.LifeFi
+import DSProofs.Lemmas.LifeKll
 namespace DS.Life
 
 theorem TripleS.of_false_pre {α} {n0 S} {P : Heap → Prop} {m : M α} {Q : α → Heap → Prop} (hf : ∀ h, P h → False) :
@@ -45,14 +46,23 @@ def fiClass (P : Fi.Params) : ClassSpec Fi.Sketch where
   usable_local := Fi.Usable.local
   owned_ids := Fi.Inv.owned_ids
 
+def kllClass (P : Kll.Params) : ClassSpec Kll.Sketch where
+  owned := Kll.owned
+  Inv := Kll.Inv P
+  Usable := Kll.Usable P
+  usable_inv := Kll.Usable.inv
+  inv_local := Kll.Inv.local
+  usable_local := Kll.Usable.local
+  owned_ids := Kll.Inv.owned_ids
+
 /-- side conditions on the tunables (decidable; discharged for the generated values in Props/C19.lean) and on the
     iterator stride of the FI map (odd, as `… | 1` in the C++ makes it) -/
-def Cfg.OK (C : Cfg) : Prop := C.theta.OK ∧ C.fi.OK ∧ ∀ lg, C.fi.strideOf lg % 2 = 1
+def Cfg.OK (C : Cfg) : Prop := C.theta.OK ∧ C.fi.OK ∧ (∀ lg, C.fi.strideOf lg % 2 = 1) ∧ C.kll.OK
 
 /-- the classes whose contracts are proved -/
-def coverage : Coverage := ⟨True, False, True⟩
+def coverage : Coverage := ⟨True, True, True⟩
 
-def spec (C : Cfg) : ObjSpec := combine (thetaClass C.theta) (ClassSpec.empty _) (fiClass C.fi)
+def spec (C : Cfg) : ObjSpec := combine (thetaClass C.theta) (kllClass C.kll) (fiClass C.fi)
 
 theorem idsLt_of {h : Heap} {ids0 : List Nat} {n0 : Nat} (e : h.ids = ids0) (en : h.next = n0)
     (lt : ∀ x, x ∈ ids0 → x < n0) : Fi.IdsLt h := by
@@ -98,7 +108,8 @@ theorem contracts (C : Cfg) (hC : C.OK) : Contracts C (spec C) coverage where
     cases o with
     | table t =>
       exact (Theta.dtor_contract C.theta n0 t ids0).conseq (fun h ⟨i, e, _⟩ => ⟨i, e⟩) (fun _ _ x => x)
-    | kll s => exact TripleS.of_false_pre (fun h hp => hp.1)
+    | kll s =>
+      exact (Kll.dtor_contract C.kll n0 s ids0).conseq (fun h ⟨i, e, _⟩ => ⟨i, e⟩) (fun _ _ x => x)
     | fi s =>
       exact (Fi.dtor_contract (P := C.fi) (n0 := n0) (ids0 := ids0) (m := s.map)).conseq (fun h ⟨i, e, _⟩ => ⟨i, e⟩) (fun _ _ x => x)
   copy := by
@@ -108,7 +119,8 @@ theorem contracts (C : Cfg) (hC : C.OK) : Contracts C (spec C) coverage where
       refine TripleS.map Obj.table ((Theta.copyCtor_contract C.theta n0 t ids0).conseq (fun h ⟨u, e, _⟩ => ⟨u, e⟩) ?_)
       intro t' h' ⟨u, _, ow⟩
       exact ⟨u, ow⟩
-    | kll s => exact TripleS.of_false_pre (fun h hp => hp.1)
+    | kll s =>
+      exact TripleS.map Obj.kll ((Kll.copyCtor_contract C.kll n0 s ids0).conseq (fun h ⟨u, e, n, _, lt⟩ => ⟨u, e, n, lt⟩) (fun _ _ x => x))
     | fi s =>
       refine TripleS.map (fun m => Obj.fi { s with map := m })
         ((Fi.copyCtor_contract (P := C.fi) (n0 := n0) (ids0 := ids0) (m := s.map)).conseq (fun h ⟨u, e, _⟩ => ⟨u, e⟩) ?_)
@@ -127,7 +139,9 @@ theorem contracts (C : Cfg) (hC : C.OK) : Contracts C (spec C) coverage where
         simp [spec, combine, thetaClass, this] at hb2
       · intro b
         simp [spec, combine, thetaClass, o1, o2]
-    | kll s => exact TripleS.of_false_pre (fun h hp => hp.1)
+    | kll s =>
+      exact TripleS.map (fun r : Kll.Sketch × Kll.Sketch => (Obj.kll r.1, Obj.kll r.2))
+        ((Kll.moveCtor_contract C.kll n0 s ids0).conseq (fun h ⟨u, e, n, _⟩ => ⟨u, e, n⟩) (fun _ _ x => x))
     | fi s =>
       apply TripleS.pure'
       intro h ⟨u, e, _⟩
@@ -149,7 +163,17 @@ theorem contracts (C : Cfg) (hC : C.OK) : Contracts C (spec C) coverage where
         exact ⟨i, u, e, lt⟩
       | kll s => simp [Obj.cls] at hc
       | fi s => simp [Obj.cls] at hc
-    | kll s => exact TripleS.of_false_pre (fun h hp => hp.1)
+    | kll t =>
+      cases o with
+      | kll o =>
+        refine TripleS.map Obj.kll ((Kll.copyAssign_contract C.kll n0 t o ids0).conseq ?_ (fun _ _ x => x))
+        intro h ⟨i, u, rel, rest⟩
+        refine ⟨i, u, ?_, rest⟩
+        rcases rel with r | r
+        · left; cases r; rfl
+        · right; exact r
+      | table s => simp [Obj.cls] at hc
+      | fi s => simp [Obj.cls] at hc
     | fi t =>
       cases o with
       | fi o =>
@@ -180,7 +204,13 @@ theorem contracts (C : Cfg) (hC : C.OK) : Contracts C (spec C) coverage where
           simp [spec, combine, thetaClass, Theta.moveAssign, or_comm]
       | kll s => simp [Obj.cls] at hc
       | fi s => simp [Obj.cls] at hc
-    | kll s => exact TripleS.of_false_pre (fun h hp => hp.1)
+    | kll t =>
+      cases o with
+      | kll o =>
+        exact TripleS.map (fun r : Kll.Sketch × Kll.Sketch => (Obj.kll r.1, Obj.kll r.2))
+          ((Kll.moveAssign_contract C.kll n0 t o ids0).conseq (fun h ⟨i, u, dj, e, n, _⟩ => ⟨i, u, dj, e, n⟩) (fun _ _ x => x))
+      | table s => simp [Obj.cls] at hc
+      | fi s => simp [Obj.cls] at hc
     | fi t =>
       cases o with
       | fi o =>
@@ -203,7 +233,8 @@ theorem contracts (C : Cfg) (hC : C.OK) : Contracts C (spec C) coverage where
       apply TripleS.pure'
       intro h ⟨u, e, _⟩
       exact ⟨u, Owns.same e (fun b hb => e ▸ (Theta.Inv.owned_ids u.inv b hb).1) (fun b => Iff.rfl)⟩
-    | kll s => exact TripleS.of_false_pre (fun h hp => hp.1)
+    | kll s =>
+      exact TripleS.map Obj.kll ((Kll.selfMoveAssign_contract C.kll n0 s ids0).conseq (fun h ⟨u, e, n, _⟩ => ⟨u, e, n⟩) (fun _ _ x => x))
     | fi s =>
       apply TripleS.pure'
       intro h ⟨u, e, _⟩
@@ -224,12 +255,29 @@ theorem contracts (C : Cfg) (hC : C.OK) : Contracts C (spec C) coverage where
   tblReset := by
     intro t n0 ids0
     exact (Theta.reset_contract C.theta n0 t ids0).conseq (fun h ⟨u, e, _⟩ => ⟨u, e⟩) (fun _ _ x => x)
-  newKll := fun h => h.elim
-  kllUpdate := fun s a coins n0 ids0 => TripleS.of_false_pre (fun h hp => hp.1)
-  kllMerge := fun a b byMove coins n0 ids0 => TripleS.of_false_pre (fun h hp => hp.1)
-  kllQuery := fun s n0 ids0 => TripleS.of_false_pre (fun h hp => hp.1)
-  kllSer := fun s n0 ids0 => TripleS.of_false_pre (fun h hp => hp.1)
-  kllRound := fun s n0 ids0 => TripleS.of_false_pre (fun h hp => hp.1)
+  newKll := by
+    intro _ k n0 ids0
+    exact (Kll.ctor_contract C.kll hC.2.2.2 n0 k ids0).conseq (fun h ⟨e, n, _⟩ => ⟨e, n⟩) (fun _ _ x => x)
+  kllUpdate := by
+    intro s a coins n0 ids0
+    exact Kll.update_contract C.kll hC.2.2.2 n0 s a coins ids0
+  kllMerge := by
+    intro a b byMove coins n0 ids0
+    unfold Kll.mergeChecked
+    by_cases hov : b.numLevels ≥ 2 ∧ a.n + b.n ≥ 2 ^ 64
+    · rw [if_pos hov]
+      exact TripleS.fail_exc _
+    · rw [if_neg hov]
+      exact Kll.merge_contract C.kll hC.2.2.2 n0 a b byMove coins ids0 (fun h2 => by omega)
+  kllQuery := by
+    intro s n0 ids0
+    exact (Kll.query_contract C.kll n0 s ids0).conseq (fun h ⟨u, e, n, _⟩ => ⟨u, e, n⟩) (fun _ _ x => x)
+  kllSer := by
+    intro s n0 ids0
+    exact (Kll.serialize_contract C.kll n0 s ids0).conseq (fun h ⟨u, e, _⟩ => ⟨u, e⟩) (fun _ h' x => by rw [x]; exact fun _ => Iff.rfl)
+  kllRound := by
+    intro s n0 ids0
+    exact (Kll.roundTrip_contract C.kll hC.2.2.2 n0 s ids0).conseq (fun h ⟨u, e, n, _, lt⟩ => ⟨u, e, n, lt⟩) (fun _ _ x => x)
   newFi := by
     intro _ lgMax lgStart n0 ids0
     exact (Fi.ctor_contract (P := C.fi) (n0 := n0) (ids0 := ids0) (lgMax := lgMax) (lgStart := lgStart)).conseq
@@ -240,7 +288,7 @@ theorem contracts (C : Cfg) (hC : C.OK) : Contracts C (spec C) coverage where
       (fun h ⟨u, e, n, lt⟩ => ⟨u, e, idsLt_of e n lt⟩) (fun _ _ x => x)
   fiMerge := by
     intro a b byMove n0 ids0
-    exact (Fi.merge_contract_disj C.fi hC.2.1 hC.2.2 n0 ids0 a b byMove).conseq
+    exact (Fi.merge_contract_disj C.fi hC.2.1 hC.2.2.1 n0 ids0 a b byMove).conseq
       (fun h ⟨ua, ub, dj, e, n, _, _, lt⟩ => ⟨ua, ub, dj, e, n, lt⟩) (fun _ _ x => x)
   fiQuery := by
     intro s arg n0 ids0
